@@ -105,8 +105,14 @@ func init() {
 		"sort.Ints":     extSortInts,
 		"sort.Float64s": extSortFloats,
 	}
+	for n, m := range map[string]string{"Floor": "floor", "Ceil": "ceil", "Trunc": "trunc", "Round": "round"} {
+		mode := m
+		externals["math."+n] = func(in *Interp, fn *ssa.Function, a []Value) Value {
+			return term.Fround(mode, a[0].(*term.Term))
+		}
+	}
 	for _, n := range []string{"Exp", "Expm1", "Log", "Log1p", "Log2", "Log10", "Sin", "Cos", "Tan", "Sinh", "Cosh", "Tanh",
-		"Erf", "Erfc", "Gamma", "Floor", "Ceil", "Trunc", "Round", "Atan", "Asin", "Acos", "Cbrt", "Erfinv"} {
+		"Erf", "Erfc", "Gamma", "Atan", "Asin", "Acos", "Cbrt", "Erfinv"} {
 		name := n
 		externals["math."+name] = func(in *Interp, fn *ssa.Function, a []Value) Value {
 			return in.mathUF1(name, a[0].(*term.Term))
@@ -546,6 +552,10 @@ func (in *Interp) expOf(t *term.Term) *term.Term {
 }
 
 func (in *Interp) expAtom(t *term.Term) *term.Term {
+	if t.IsConst() && t.F < 0 {
+		// one atom per |c|: exp(-c) = 1/exp(c)
+		return term.Fdiv(term.FloatC(term.F64, 1), in.expAtom(term.FloatC(term.F64, -t.F)))
+	}
 	in.stubsSeen["math.Exp"]++
 	u := term.UF(term.F64, "E", t)
 	if _, done := in.facts[u.ID]; !done {
